@@ -9,8 +9,8 @@ from harness import common as C
 from harness import probes
 
 PROP = "C08"
-TARGETS = ["IbicusModel.Props.C08", "IbicusModel.Props.Calendar", "IbicusModel.Props.CalendarAgree"]
-GEN = ["Windows"]
+TARGETS = ["IbicusModel.Props.C08", "IbicusModel.Props.Calendar", "IbicusModel.Props.CalendarAgree", "IbicusModel.Lemmas.GenLoops"]
+GEN = ["Windows", "Loops"]
 
 
 def wrap366(x):
@@ -47,6 +47,190 @@ def reassemble(deb, name, slices_line, o, h, f, dO, dH, dF):
             mask = np.isin(iwF, iadj)
         out[iadj] = res[mask]
     return out
+
+
+def _annual_trend_p(x, years):
+    """harness-side (scipy) p-value of the linear trend in the calendar-year means; only used to MEASURE how many generated
+    series carry a significant inter-annual trend (coverage), never for the verdict"""
+    import scipy.stats
+
+    ys = np.unique(years)
+    if ys.size < 3:
+        return 1.0
+    p = scipy.stats.linregress(ys, np.array([x[years == y].mean() for y in ys])).pvalue
+    return float(p) if np.isfinite(p) else 1.0
+
+
+def interannual_cases(tier, res, problems, boost):
+    """Locality on series with INTER-ANNUAL structure under perturbations that are UNEVEN ACROSS YEARS (round 5).
+
+    Quantifiers of the property covered here (the cases of `run` below draw two-to-four-year stationary series and change
+    the far-away data of every year alike, so every statistic taken over YEARS — an annual-mean regression and its
+    significance test, a level shift, a window over years — was degenerate and any such statistic computed from the whole
+    series instead of the window slice went unseen):
+      * "for all inputs": five to ten years per series, each series with its own structure over the years (linear trend of
+        either sign in the annual means — strong enough to pass a p < 0.05 test on the whole record, and from clearly to
+        barely significant inside a single window —, a level shift between two years, or none), whole calendar years or any
+        start day, different periods for the three series;
+      * "for all perturbations of out-of-window values": a spell in the last two years only / in a random subset of years /
+        in one year / half a year away in the last years, a ramp over the years (creates or removes a trend in the far
+        data), besides x3 and +1e6 on everything far away; applied to one series only (obs, cm_hist, cm_future) or to all;
+      * "for all target days": EVERY step of the corrected series that falls on the target's calendar day (each year of
+        the record) is compared bit for bit, not one step;
+      * "all deterministic debiaser configurations in running-window mode": the eight tas configurations, ISIMIP psl / rlds,
+        multiplicative LS / DC and relative SDM on precipitation with a multiplicative trend; called through
+        `apply_location` and through `apply`.
+    The oracle is the property's own clause: only values whose calendar day is farther than L//2 + S//2 (circularly, the
+    harness's independent calendar) from the target day are changed, all by finite amounts, so each compared value must be
+    bit-for-bit the same (an undefined value stays undefined)."""
+    rng = random.Random(C.seed() * 104729 + 8008)  # a stream of its own: the cases of `run` keep theirs
+    res.rule += ("; inter-annual cases = (debiaser, L, S, years, structure per series, target doy, perturbation kind, perturbed series), "
+                 "non-trivial when some series carries a trend in its annual means with p < 0.05 and the perturbed index set is non-empty")
+    tas_names = list(probes.window_debiasers(31, 1)) + ["ISIMIP-psl", "ISIMIP-rlds"]
+    pr_names = ["LinearScaling-pr", "DeltaChange-pr", "ScaledDistributionMapping-pr"]
+    reps = (1 if tier == "quick" else 6) * (3 if boost else 1)
+    series_names = ("obs", "cm_hist", "cm_future")
+    kinds = ["spell-last-years", "spell-some-years", "spell-one-year", "halfyear-last-years", "ramp", "x3", "+1e6"]
+    n_case = 0
+    for rep in range(reps):
+        # ISIMIP (the one method with a data-dependent branch over the years: significance-tested detrending) three times, the
+        # others once; one precipitation configuration per repetition in quick (which one rotates with the seed)
+        plan = ["ISIMIP", "ISIMIP"] + tas_names
+        plan += [pr_names[(rep + C.seed()) % len(pr_names)]] if tier == "quick" and not boost else pr_names
+        for name in plan:
+            n_case += 1
+            nprs = np.random.RandomState(rng.randint(0, 2**31 - 1))
+            is_pr = name in pr_names
+            is_dc = name.startswith("DeltaChange")
+            ny = rng.randint(5, 10)
+            y0 = rng.randint(1950, 2070)
+            whole_years = rng.random() < 0.5
+
+            def span(y):
+                if whole_years:
+                    return probes.dates_from(datetime.date(y, 1, 1), (datetime.date(y + ny, 1, 1) - datetime.date(y, 1, 1)).days)
+                return probes.dates_from(datetime.date(y, rng.randint(1, 12), rng.randint(1, 28)), 365 * ny + rng.randint(0, 300))
+
+            rawO, rawH, rawF = span(y0 - 30 - rng.randint(0, 3)), span(y0 - 30 - rng.randint(0, 3)), span(y0 + rng.randint(0, 20))
+            yrs = {s: np.array([d.year for d in raw]) for s, raw in zip(series_names, (rawO, rawH, rawF))}
+            doys = {s: probes.indep_doy(raw) for s, raw in zip(series_names, (rawO, rawH, rawF))}  # independent of the library
+            sd = rng.choice([1.5, 3.0, 4.0])
+            if is_pr:
+                data = {"obs": probes.pr_like(nprs, rawO, 0.5, 4.0), "cm_hist": probes.pr_like(nprs, rawH, 0.6, 3.0),
+                        "cm_future": probes.pr_like(nprs, rawF, 0.55, 3.5)}
+            else:
+                data = {"obs": probes.tas_like(nprs, rawO, 283, sd), "cm_hist": probes.tas_like(nprs, rawH, 285, sd + 1),
+                        "cm_future": probes.tas_like(nprs, rawF, 287, sd + 1)}
+            structure = {s: rng.choice(["trend", "trend", "step", "flat"]) for s in series_names}
+            if all(v == "flat" for v in structure.values()):
+                structure[rng.choice(series_names)] = "trend"
+            struct_par = {}
+            for s in series_names:
+                k = yrs[s] - yrs[s].min()
+                if structure[s] == "trend":
+                    g = rng.choice([-1, 1]) * rng.randint(8, 40) / 64  # K per year (0.125 .. 0.625); pr: a tenth of it per year, relative
+                    struct_par[s] = g
+                    data[s] = data[s] * (1 + abs(g) / 10 * k) if is_pr else data[s] + g * k
+                elif structure[s] == "step":
+                    g, at = rng.choice([-1, 1]) * rng.randint(64, 192) / 64, int(yrs[s].min()) + ny // 2
+                    struct_par[s] = [g, at]
+                    data[s] = data[s] * np.where(yrs[s] >= at, 1.5 if g > 0 else 0.6, 1.0) if is_pr else data[s] + np.where(yrs[s] >= at, g, 0.0)
+            significant = {s: _annual_trend_p(data[s], yrs[s]) < 0.05 for s in series_names}
+            cheap = name.startswith(("LinearScaling", "DeltaChange")) or name == "QuantileMapping"
+            S = rng.choice([1, 5, 15, 31] if cheap else [5, 15, 31])
+            L = S + rng.choice([0, 4, 16, 30])
+            if is_pr:
+                L = max(L, 15)  # multiplicative scaling of precipitation: no all-dry window (0/0)
+            Ln, Sn = L + (L % 2 == 0), S + (S % 2 == 0)
+            k_near = Ln // 2 + Sn // 2
+            corrected = "obs" if is_dc else "cm_future"
+            cand = [i for i, d in enumerate(doys[corrected]) if d in (1, 2, 365, 366, 59, 60)]
+            ti = rng.choice(cand) if cand and rng.random() < 0.4 else rng.randrange(doys[corrected].size)
+            t = int(doys[corrected][ti])
+            targets = np.where(doys[corrected] == t)[0]
+            enc = probes.pick_kind(rng)
+            dO, dH, dF = probes.present(rawO, enc), probes.present(rawH, enc), probes.present(rawF, enc)
+            via = "apply" if n_case % 2 else "apply_location"
+            base_case = {"what": "locality-interannual/" + name, "L": L, "S": S, "years": ny, "whole_years": whole_years,
+                         "startO": str(rawO[0]), "startH": str(rawH[0]), "startF": str(rawF[0]), "nO": int(rawO.size), "nH": int(rawH.size),
+                         "nF": int(rawF.size), "noise_sd": None if is_pr else sd, "structure": structure, "structure_parameters": struct_par,
+                         "annual_trend_significant": significant, "target_doy": t, "target_indices": [int(i) for i in targets],
+                         "time_encoding": enc, "called_through": via, "seed": C.seed()}
+            if name in probes.window_debiasers(31, 1):
+                mk = probes.window_debiasers(L, S)[name]
+            else:
+                mk = probes.window_debiasers_extra(L, S)[name][0]
+
+            def run_deb(d):
+                with warnings.catch_warnings():
+                    warnings.simplefilter("ignore")
+                    if via == "apply_location":
+                        return np.asarray(mk().apply_location(d["obs"], d["cm_hist"], d["cm_future"], dO, dH, dF))
+                    return np.asarray(mk().apply(d["obs"][:, None, None], d["cm_hist"][:, None, None], d["cm_future"][:, None, None],
+                                                 progressbar=False, time_obs=dO, time_cm_hist=dH, time_cm_future=dF))[:, 0, 0]
+
+            try:
+                a = run_deb({s: v.copy() for s, v in data.items()})
+            except Exception as ex:  # noqa: BLE001
+                problems.append((f"{name} [inter-annual]: {type(ex).__name__} on well-formed multi-year input: {str(ex)[:120]}", base_case))
+                continue
+            # the perturbed series: each single series and all three in quick (three of the four per case), all four in thorough
+            whiches = ["obs", "cm_hist", "cm_future", "all"]
+            rng.shuffle(whiches)
+            for which in (whiches[:3] if tier == "quick" else whiches):
+                kind = rng.choice(kinds)
+                amount = rng.choice([-1, 1]) * rng.randint(3 * 64, 8 * 64) / 64  # K (tas); pr: factor 1 + |amount| / 4
+                if kind == "ramp":
+                    amount = rng.choice([-1, 1]) * rng.randint(12, 64) / 64  # K per year; pr: |amount| / 4 per year, relative
+                pert, sel, n_far = {}, {}, 0
+                for s in series_names:
+                    x = data[s].copy()
+                    if which in ("all", s):
+                        far = ~near_mask(k_near, t, doys[s])
+                        ys = [int(y) for y in np.unique(yrs[s])]
+                        if kind in ("spell-last-years", "halfyear-last-years"):
+                            sel[s] = ys[-2:]
+                        elif kind == "spell-some-years":
+                            sel[s] = sorted(rng.sample(ys, rng.randint(1, len(ys) - 1)))
+                        elif kind == "spell-one-year":
+                            sel[s] = [rng.choice(ys)]
+                        if kind == "halfyear-last-years":
+                            far &= ~near_mask(150, t, doys[s])
+                        if s in sel:
+                            far &= np.isin(yrs[s], sel[s])
+                        if kind == "x3":
+                            x[far] = x[far] * 3
+                        elif kind == "+1e6":
+                            x[far] = x[far] + (1e3 if is_pr else 1e6)
+                        elif kind == "ramp":
+                            k = (yrs[s] - yrs[s].min())[far]
+                            x[far] = x[far] * (1 + abs(amount) / 4 * k) if is_pr else x[far] + amount * k
+                        else:
+                            x[far] = x[far] * (1 + abs(amount) / 4) if is_pr else x[far] + amount
+                        n_far += int(far.sum())
+                    pert[s] = x
+                case = dict(base_case, perturbation=kind, perturbed_series=which, amount=amount, perturbed_years=sel, n_perturbed=n_far)
+                try:
+                    b = run_deb(pert)
+                except Exception as ex:  # noqa: BLE001
+                    problems.append((f"{name} [inter-annual]: {type(ex).__name__} after changing only finite values more than L//2+S//2={k_near} "
+                                     f"days away from day {t} ({kind} on {which}), none on the unperturbed input: {str(ex)[:120]}", case))
+                    continue
+                res.count(("interannual", name, L, S, ny, t, kind, which), n_far > 0 and any(significant.values()),
+                          sample=case if res.extra.get("interannual_cases", 0) < 2 else None)
+                res.extra["interannual_cases"] = res.extra.get("interannual_cases", 0) + 1
+                res.extra["interannual_cases_significant_trend"] = res.extra.get("interannual_cases_significant_trend", 0) + int(any(significant.values()))
+                va, vb = a[targets], b[targets]
+                both_nan = np.isnan(va) & np.isnan(vb)
+                if both_nan.any():
+                    res.extra["locality_targets_nan_in_both_runs"] = res.extra.get("locality_targets_nan_in_both_runs", 0) + int(both_nan.sum())
+                bad = ~((va == vb) | both_nan)
+                if bad.any():
+                    j = int(np.where(bad)[0][0])
+                    case["changed_indices"] = [int(i) for i in targets[bad]]
+                    problems.append((f"{name} [inter-annual, {kind} on {which}]: the value on day {t} changed in {int(bad.sum())} of {targets.size} "
+                                     f"years (first: step {int(targets[j])}, {va[j]!r} -> {vb[j]!r}) although only {n_far} values more than "
+                                     f"L//2+S//2={k_near} days away from it were changed", case))
 
 
 def run(tier, res, force_search=False):
@@ -363,6 +547,9 @@ def run(tier, res, force_search=False):
                         res.count(("reach", L, t), True)
                         if c3[ti] == a[ti]:
                             problems.append((f"LinearScaling [{scen}]: changing cm_hist exactly {Ln // 2} days from day {t} did not change the result: the window is narrower than documented", case))
+
+    # ---- the same oracle on multi-year series with inter-annual structure, perturbed unevenly across the years
+    interannual_cases(tier, res, problems, bool(force_search or not lean_ok or mismatches))
 
     seen = set()
     for p, case in problems:
